@@ -50,7 +50,7 @@ class C17(Prop):
 
     def bounds(self, tier):
         return {
-            'layers': '1..3' if tier == 'quick' else '1..4',
+            'layers': '1..3 (and four single-factor layers)' if tier == 'quick' else '1..4',
             'factors_per_layer': '1..3',
             'world_size': '<= 8',
             'worker_group_partitions': _groups(tier),
@@ -59,7 +59,7 @@ class C17(Prop):
 
     def configs(self, tier, seed):
         out = []
-        shapes = [[2], [1], [3], [2, 2], [1, 3], [3, 2], [2, 2, 2], [1, 2, 3]]
+        shapes = [[2], [1], [3], [2, 2], [1, 3], [3, 2], [2, 2, 2], [1, 2, 3], [1, 1, 1, 1]]
         if tier == 'thorough':
             shapes += [[3, 3, 2], [2, 2, 2, 2], [1, 1, 2, 3]]
         for fs in shapes:
